@@ -1,6 +1,7 @@
 import ScriggoV.Drv.Util
 import ScriggoV.Model.Builtins
 import ScriggoV.Spec.Percent
+import ScriggoV.Model.BuiltinsText
 namespace ScriggoV.Drv.C25
 open ScriggoV ScriggoV.Builtins
 
@@ -20,7 +21,64 @@ def int64? (s : String) : Option Int := do
 def widths (rs : List Bytes) : String :=
   if rs.isEmpty then "-" else ",".intercalate (rs.map fun r => toString r.length)
 
+/-- one entry `cp.flags.upper.lower` of the table of package unicode's answers for the runes of
+the case (flags: 1 lower, 2 upper, 4 digit, 8 letter, 16 space), supplied by the harness -/
+def parseEntry (e : String) : Option (Nat × Nat × Nat × Nat) :=
+  match e.splitOn "." with
+  | [a, b, c, d] => do
+    let a ← a.toNat?
+    let b ← b.toNat?
+    let c ← c.toNat?
+    let d ← d.toNat?
+    pure (a, b, c, d)
+  | _ => none
+
+def parseTable (t : String) : Option (List (Nat × Nat × Nat × Nat)) :=
+  if t == "-" then some [] else (t.splitOn ",").mapM parseEntry
+
+def lookupRune (tbl : List (Nat × Nat × Nat × Nat)) (r : Nat) : Nat × Nat × Nat :=
+  match tbl.find? (fun e => e.1 == r) with
+  | some e => e.2
+  | none => (0, r, r)
+
+def unicodeOf (tbl : List (Nat × Nat × Nat × Nat)) : UnicodeFns where
+  isLower r := (lookupRune tbl r).1 % 2 == 1
+  isUpper r := (lookupRune tbl r).1 / 2 % 2 == 1
+  isDigit r := (lookupRune tbl r).1 / 4 % 2 == 1
+  isLetter r := (lookupRune tbl r).1 / 8 % 2 == 1
+  isSpace r := (lookupRune tbl r).1 / 16 % 2 == 1
+  toUpper r := (lookupRune tbl r).2.1
+  toLower r := (lookupRune tbl r).2.2
+
 def handle : List String → Option String
+  | ["capitalize", h, t] => do
+    let s ← fromHex h
+    let tbl ← parseTable t
+    pure (exceptBytes (capitalize (unicodeOf tbl) s))
+  | ["capitalizeall", h, t] => do
+    let s ← fromHex h
+    let tbl ← parseTable t
+    pure (okBytes (capitalizeAll (unicodeOf tbl) s))
+  | ["tokebab", h, t] => do
+    let s ← fromHex h
+    let tbl ← parseTable t
+    pure (exceptBytes (toKebab (unicodeOf tbl) s))
+  | ["reverse", h] => do
+    let s ← fromHex h
+    pure (exceptBytes (goReverse s))
+  | ["formatfloat", h] => do
+    let s ← fromHex h
+    pure (match formatFloatVerb s with
+      | .ok none => "ok documented-panic"
+      | .ok (some b) => okBytes [b]
+      | .error f => "err " ++ f.name)
+  | ["decoderune", h] => do
+    let s ← fromHex h
+    let d := Utf8.decodeRune s
+    pure ("ok " ++ toString d.1 ++ " " ++ toString d.2)
+  | ["encoderune", n] => do
+    let n ← n.toNat?
+    pure (okBytes (Utf8.encodeRune n))
   | ["queryescape", h] => do
     let s ← fromHex h
     pure (exceptBytes (queryEscape s))
